@@ -196,8 +196,10 @@ def loadApev2File (f : Bytes) : Except PyErr (Option ApeF.Loc) := apeTags f
 
 Two models of `OggFileType.load` exist: `OggInj.loadPure c` (identification page as far as it decides the outcome,
 the comment packets, `_post_tags`' last page) and `Info.<Codec>.parse` (info constructor with every field, and
-`_post_tags`).  Both contain the info constructor's refusals; no lemma says that they refuse the same files.  The
-load is ok when both are. -/
+`_post_tags`).  Both contain the info constructor's refusals and they refuse the same files
+(Props/C04_FileTypes.lean `ogg*_models_agree`, `ogg_file_load_is_load_pure`, from the link lemmas of
+Proofs/Container/OggInjectLoadLink.lean): the outcome is that of `OggInj.loadPure`, the second component is the info
+record. -/
 
 def loadOggVorbis (f : Bytes) := both (OggInj.loadPure .vorbis f) (Info.Vorbis.parse f)
 def loadOggOpus (f : Bytes) := both (OggInj.loadPure .opus f) (Info.Opus.parse f)
